@@ -71,7 +71,9 @@ impl DeferredRead {
                         self.vec.capacity(),
                         h.variation,
                         h.details.qualifier()
-                    )
+                    );
+                    // the header isn't processed, so the response must report it
+                    iin2 |= Iin2::PARAMETER_ERROR;
                 }
             } else {
                 iin2 = Iin2::PARAMETER_ERROR;
